@@ -31,6 +31,9 @@ struct C {
     needs_union_double_int64: bool,
     needs_async: bool,
     prim_names: HashSet<String>,
+    /// `*_free` helper emitted for each typedef name, so that a second
+    /// `TypeId` sharing an already-emitted primitive typedef can reuse it.
+    dtors_by_type_name: HashMap<String, String>,
     world: String,
     sizes: SizeAlign,
     renamed_interfaces: HashMap<WorldKey, String>,
@@ -1912,6 +1915,14 @@ impl InterfaceGenerator<'_> {
                     assert!(prev.is_none());
 
                     if defined {
+                        // The typedef was already emitted for another
+                        // `TypeId` (e.g. the imported copy of an interface
+                        // that is also exported): reuse its `*_free` helper
+                        // so values of this type are still released.
+                        let name = &self.r#gen.type_names[&ty];
+                        if let Some(dtor) = self.r#gen.dtors_by_type_name.get(name).cloned() {
+                            self.r#gen.dtor_funcs.insert(ty, dtor);
+                        }
                         continue;
                     }
 
@@ -2039,6 +2050,9 @@ impl InterfaceGenerator<'_> {
             return;
         }
         self.src.c_helpers("}\n");
+        self.r#gen
+            .dtors_by_type_name
+            .insert(name.clone(), format!("{prefix}_free"));
         self.r#gen.dtor_funcs.insert(id, format!("{prefix}_free"));
     }
 
